@@ -59,7 +59,8 @@ DEBOUNCE_VARS = ['int32', 'int16', 'uint16', 'uint64', 'float', 'half', 'fortran
                  'd-int64', 'd-int32', 'd-uint8', 'd-int16']
 BIG = 2 ** 40            # sample numbers far beyond 32 bits
 # Demands that FAIL on the unchanged library and wait for the integrator's decision (notes/C18.md, "hardening"):
-# a read-only boolean array makes util.epochs raise; smooth_epochs column-sorts the caller's ndarray in place.
+# smooth_epochs column-sorts the caller's ndarray in place (the property does not say inputs stay unmodified).
+# (A read-only boolean array made util.epochs raise: repaired by fix af362fd and demanded unconditionally now.)
 # They are generated / demanded only with VERIF_PENDING=1.
 import os
 PENDING = os.environ.get('VERIF_PENDING') == '1'
@@ -203,7 +204,7 @@ class C18(Spec):
         #      checks that the argument comes back unmodified and (mut) that overwriting the returned table and
         #      calling again gives the same answer
         edge_bits = ['-', '0', '1', '11', '00', '01', '10', '101', '010', '0110', '1001', '1' * 9, '0' * 9]
-        for var in EPOCH_VARS + (['readonly'] if PENDING else []):
+        for var in EPOCH_VARS + ['readonly']:      # read-only inputs: repaired by fix af362fd
             for bits in edge_bits:
                 yield {'kind': 'epochs', 'bits': bits, 'var': var, 'mut': 1}
             for _ in range(per):
